@@ -4,6 +4,7 @@ import (
 	"sync"
 
 	"github.com/buildbuildio/pebbles/gqlerrors"
+	"github.com/buildbuildio/pebbles/simhook"
 	"github.com/samber/lo"
 	"github.com/vektah/gqlparser/v2/ast"
 )
@@ -42,17 +43,25 @@ func AsyncMapReduce[T, P, A any](
 	defer close(doneChan)
 
 	for _, value := range payload {
+		tok := simhook.Fork()
 		go func(v T) {
+			simhook.Start(tok)
+			defer simhook.Exit()
 			mapRes, err := mapFunc(v)
 			if err != nil {
+				simhook.Yield("amr.send.err")
 				errChan <- err
 				return
 			}
+			simhook.Yield("amr.send.res")
 			resChan <- mapRes
 		}(value)
 	}
 
+	rtok := simhook.Fork()
 	go func() {
+		simhook.Start(rtok)
+		defer simhook.Exit()
 		for {
 			select {
 			case res := <-resChan:
@@ -69,6 +78,7 @@ func AsyncMapReduce[T, P, A any](
 
 	wg.Wait()
 
+	simhook.Yield("amr.done")
 	doneChan <- struct{}{}
 
 	if len(errs) > 0 {
